@@ -12,7 +12,7 @@ Theorem C15_result_posted_only_if_pending_and_unaltered :
   execute_operation {| h_st := st; h_tr := [] |} x = ROk h tt ->
   ox_event x <> ""%string /\
   exists stored, In stored (ops_visible st) /\ op_same_id (ox_ident x) stored = true /\
-                 op_type stored = op_type (ox_op x) /\ ox_stored_bytes x = ox_bytes x /\
+                 op_type stored = op_type (ox_op x) /\ ox_stored_bytes x = ox_bytes x /\ op_round stored = op_round (ox_op x) /\
                  (ox_event x <> ev_processed ->
                     exists tail, h_tr h = sends_of (ns_user st) (ox_msgs x) ++ tail /\
                                  forall w, In w tail -> match w with WSend _ => False | _ => True end).
